@@ -5,6 +5,7 @@ CONSTANTS
   WithPlans = FALSE
   BlockBudget = 1000
   MinDecls = 16
+  MaxNest = 5
   TypesOnly = TRUE
   CallsOnly = FALSE
   Rich = TRUE
